@@ -45,6 +45,24 @@ def base_conn(client, name):
         for _ in range(3):
             h.rx([wire.data(1, b"x" * 16000)])
         return h.conn
+    if name == "unacked-data-forgotten":
+        # as above, but the stream has ended both ways and the library has dropped it from its stream table since
+        h = H.Solo(client)
+        if client:
+            h.api("send_headers", 1, H.ni(H.REQ_POST), end_stream=True)
+            h.rx([wire.headers(1, sb(H.RESP))])
+        else:
+            h.rx([wire.headers(1, sb(H.REQ_POST))])
+            h.api("send_headers", 1, H.ni(H.RESP), end_stream=True)
+        for i in range(3):
+            h.rx([wire.data(1, b"x" * 16000, es=(i == 2))])
+        if client:
+            h.api("send_headers", 3, H.ni(H.REQ_POST))
+        else:
+            h.rx([wire.headers(3, sb(H.REQ_POST))])
+        h.cleanup()
+        assert 1 not in h.conn.streams
+        return h.conn
     if name == "pending-output":
         c = corpus.build_state(client, "open")
         c.ping(b"12345678")
@@ -129,7 +147,7 @@ class Spec:
     def initial(self):
         out = []
         names = [n for n in (corpus.CLIENT_STATES if self.client else corpus.SERVER_STATES) if not n.startswith("closed")]
-        names += ["unacked-data", "pending-output"]
+        names += ["unacked-data", "unacked-data-forgotten", "pending-output"]
         for name in names:
             for route in ROUTES:
                 conn = base_conn(self.client, name)
@@ -155,7 +173,8 @@ class Spec:
 
     def actions(self, st):
         if st.first:
-            return ["drain"]
+            # either the application collects the output first, or the peer's GOAWAY gets there before it does
+            return ["drain", "goaway-before-drain"]
         return ["call:" + k for k in sorted(self.calls)] + ["rx:" + k for k in sorted(self.frames)]
 
     def apply(self, st, lab):
@@ -189,6 +208,15 @@ class Spec:
                 if len(gos) != 1 or o.frames[-1].type != wire.GOAWAY:
                     bad("closing-goaway-missing", "output after close: %s" % [f.brief() for f in o.frames], route=st.route)
             return Step("drain-" + st.route, viols)
+        if lab == "goaway-before-drain":
+            st.first = False
+            o = H.recv(conn, wire.goaway(0, 0, b"bye").serialize())
+            if o.kind == "raise" and not o.is_proto:
+                bad("non-protocol-exception-after-close", "%s raised %s" % (lab, o.exc_name), via="recv", exc=o.exc_name)
+            if o.kind == "ok" and o.raw:
+                bad("output-not-discarded-on-goaway", "a GOAWAY received before the pending output was collected left %d bytes: %s" % (
+                    len(o.raw), [f.brief() for f in o.frames]), base=st.base, already_closed=True)
+            return Step("goaway-before-drain-" + o.kind, viols)
         kind, name = lab.split(":", 1)
         if kind == "call":
             _, method, args, kw = self.calls[name]
